@@ -441,7 +441,7 @@ func TestTotality(t *testing.T) {
 
 // FuzzAmf0Read: totality of every reader on the fuzzer's bytes, plus the
 // round-trip oracle whenever the input happens to be the canonical encoding of
-// a value tree of depth <= 6 (the domain of sub-property roundtrip).
+// a value tree of depth <= 64 (the domain of sub-property roundtrip).
 func FuzzAmf0Read(f *testing.F) {
 	seeds := [][]byte{
 		{},
@@ -474,7 +474,7 @@ func FuzzAmf0Read(f *testing.F) {
 			return nil
 		}))
 		// semantic part
-		v, n, err := (rtmpref.Amf0Decoder{MaxDepth: 6}).Decode(in)
+		v, n, err := (rtmpref.Amf0Decoder{MaxDepth: lalMaxDepth}).Decode(in)
 		if err != nil || !rtmpref.Amf0Canonical(v, in[:n]) || hasUnsupported(v) {
 			return
 		}
